@@ -65,12 +65,20 @@ mod imp {
         }
     }
 
+    /// In "bomb" runs a payload that is destroyed on one of the operating threads - a value handed to a `set` that was
+    /// turned down - panics in its destructor (as a client whose sink panics in `Drop` would). That panic reaches the
+    /// caller of that `set`; it must not change anything for anybody else.
+    pub static BOMBS: std::sync::atomic::AtomicBool = std::sync::atomic::AtomicBool::new(false);
+
     impl Drop for Payload {
         fn drop(&mut self) {
             if self.dropped.fetch_add(1, Ordering::Relaxed) != 0 {
                 DOUBLE_DROPS.fetch_add(1, Ordering::Relaxed);
             }
             DROPS.fetch_add(1, Ordering::Relaxed);
+            if BOMBS.load(Ordering::Relaxed) && ME.with(|m| m.get()).is_some() && !std::thread::panicking() {
+                panic!("bomb v{}", self.id);
+            }
         }
     }
 
@@ -190,10 +198,13 @@ mod imp {
         pub cut: bool,
         pub final_get: Option<(usize, u64, bool)>,
         pub payload_drops_ok: bool,
+        pub deadlock: bool,
         pub sets: u64,
     }
 
     const MAX_STEPS: usize = 400;
+    /// choices made while some thread was blocked for real between two scheduling points
+    pub static BLOCKED_SEEN: AtomicU64 = AtomicU64::new(0);
 
     /// Which public constructor builds the holder for a run (`new()` is const, `default()` comes from the derive).
     pub static USE_DEFAULT_CTOR: std::sync::atomic::AtomicBool = std::sync::atomic::AtomicBool::new(false);
@@ -207,6 +218,9 @@ mod imp {
     /// thread ids)` when one is given (sampled schedules of configurations too large to enumerate).
     pub fn run_schedule_with(cfg: &Config, prefix: &[usize], mut chooser: Option<&mut dyn FnMut(usize, &[usize]) -> usize>) -> RunOut {
         let n = cfg.len();
+        // (decided by the configuration alone, so that a schedule replays as it ran)
+        let total_sets = cfg.iter().flatten().filter(|o| **o == OpKind::Set).count();
+        BOMBS.store(total_sets >= 2 && config_name(cfg).len() % 2 == 0, Ordering::Relaxed);
         let sched = Arc::new(Sched {
             st: Mutex::new(SchedState { turn: None, waiting: vec![false; n], finished: vec![false; n], running: n, trace: Vec::new(), cur_op: vec![OpKind::Get; n] }),
             cv: Condvar::new(),
@@ -216,12 +230,15 @@ mod imp {
         let drops_before = DROPS.load(Ordering::SeqCst);
         let mut joins = Vec::new();
         let mut sets = 0u64;
+        let tids: Arc<Vec<std::sync::atomic::AtomicU32>> = Arc::new((0..n).map(|_| std::sync::atomic::AtomicU32::new(0)).collect());
         for (i, ops) in cfg.iter().enumerate() {
             let ops = ops.clone();
             let sched = sched.clone();
             let holder = holder.clone();
+            let tids = tids.clone();
             sets += ops.iter().filter(|o| **o == OpKind::Set).count() as u64;
             joins.push(std::thread::spawn(move || {
+                tids[i].store(cvh::procmon::gettid(), Ordering::SeqCst);
                 ME.with(|m| m.set(Some(i)));
                 for (k, op) in ops.iter().enumerate() {
                     let value = (i as u64 + 1) * 100 + k as u64;
@@ -254,13 +271,48 @@ mod imp {
         // scheduler loop
         let mut choices: Vec<(usize, usize)> = Vec::new();
         let mut cut = false;
+        let mut deadlock = false;
         loop {
             let mut g = sched.st.lock().unwrap();
-            while !(g.running == 0 && g.turn.is_none()) {
-                g = sched.cv.wait(g).unwrap();
+            // Normally every thread is either waiting at a scheduling point or finished before the next choice is made.
+            // An implementation may also BLOCK a thread for real (a lock of its own between two scheduling points, held
+            // by a thread that is waiting for its turn): such a thread is asleep with unchanged context-switch counters
+            // sample after sample. It is then left where it is and the choice is made among the others.
+            let mut last: Vec<(usize, Option<cvh::procmon::TaskStatus>)> = Vec::new();
+            let mut stable = 0u32;
+            let mut stable_since = std::time::Instant::now();
+            let mut stalled = false;
+            while !(g.turn.is_none() && (g.running == 0 || stalled)) {
+                let (g2, to) = sched.cv.wait_timeout(g, std::time::Duration::from_millis(10)).unwrap();
+                g = g2;
+                if !to.timed_out() || g.turn.is_some() || g.running == 0 {
+                    stable = 0;
+                    stable_since = std::time::Instant::now();
+                    last.clear();
+                    continue;
+                }
+                let cur: Vec<(usize, Option<cvh::procmon::TaskStatus>)> = (0..n).filter(|i| !g.waiting[*i] && !g.finished[*i]).map(|i| (i, cvh::procmon::task_status(tids[i].load(Ordering::SeqCst)))).collect();
+                let asleep = !cur.is_empty() && cur.iter().all(|(_, st)| st.as_ref().map(|st| st.state == 'S').unwrap_or(false));
+                if asleep && cur == last {
+                    stable += 1;
+                } else {
+                    stable = 0;
+                    stable_since = std::time::Instant::now();
+                    last = cur;
+                }
+                if stable >= 20 && stable_since.elapsed() >= std::time::Duration::from_millis(250) {
+                    stalled = true;
+                }
+            }
+            if stalled {
+                BLOCKED_SEEN.fetch_add(1, Ordering::Relaxed);
             }
             let enabled: Vec<usize> = (0..n).filter(|i| g.waiting[*i] && !g.finished[*i]).collect();
             if enabled.is_empty() {
+                if stalled {
+                    // nobody can move and somebody is blocked for good
+                    deadlock = true;
+                }
                 break;
             }
             let step = choices.len();
@@ -278,6 +330,12 @@ mod imp {
             g.turn = Some(enabled[c]);
             sched.cv.notify_all();
         }
+        if deadlock {
+            // the blocked threads are left behind (they hold their clones of the holder)
+            set_tracer(None);
+            let trace = std::mem::take(&mut sched.st.lock().unwrap().trace);
+            return RunOut { trace, choices, cut: true, final_get: None, payload_drops_ok: true, sets, deadlock: true };
+        }
         for j in joins {
             let _ = j.join();
         }
@@ -287,7 +345,7 @@ mod imp {
         let drops_after = DROPS.load(Ordering::SeqCst);
         let payload_drops_ok = drops_after - drops_before == sets && DOUBLE_DROPS.load(Ordering::SeqCst) == 0;
         let trace = std::mem::take(&mut sched.st.lock().unwrap().trace);
-        RunOut { trace, choices, cut, final_get, payload_drops_ok, sets }
+        RunOut { trace, choices, cut, final_get, payload_drops_ok, sets, deadlock: false }
     }
 
     // ---------------------------------------------------------------------------------------------
@@ -329,6 +387,9 @@ mod imp {
         }
         for o in &ops {
             if let Some(OpResult::Panicked(p)) = &o.res {
+                if o.op == OpKind::Set && BOMBS.load(Ordering::Relaxed) && p.contains(&format!("bomb v{}", o.value)) {
+                    continue; // the destructor of the value this very set was given (and turned down)
+                }
                 return Some(Finding { rule: "no-panic", class: "operation-panicked", detail: format!("T{} {:?} panicked: {}", o.t, o.op, p) });
             }
         }
@@ -651,8 +712,13 @@ mod imp {
                 trace: jobj! {"configuration" => name.as_str(), "schedule" => sched_s.as_str(), "trace" => trace_json(&out.trace)},
             });
         };
-        if let Some(f) = value_oracle(out) {
+        if out.deadlock {
+            report(rep, Finding { rule: "progress", class: "all-threads-blocked", detail: "every thread that has not finished is asleep inside a holder operation with unchanged context-switch counters, and nobody is left to wake them: these calls never return".into() }, "scheduler");
+        } else if let Some(f) = value_oracle(out) {
             report(rep, f, "value oracle");
+        }
+        if BOMBS.load(Ordering::Relaxed) {
+            rep.obs("schedules_in_which_a_turned_down_value_panics_in_its_destructor", 1);
         }
         // vector clocks need to see the synchronisation: every set must have produced atomic events
         let set_ops = out.trace.iter().filter(|e| matches!(e, TEvent::OpBegin { op: OpKind::Set, .. })).count();
@@ -667,6 +733,16 @@ mod imp {
         }
         if out.cut {
             rep.obs("schedules_cut_at_step_bound", 1);
+        }
+        rep.obs_max("choices_made_while_a_thread_was_blocked_for_real", BLOCKED_SEEN.load(Ordering::Relaxed));
+        // every choice made past a blocked thread costs a quarter of a second of watching it: the exploration of an
+        // implementation that blocks is cut short (and says so) instead of taking hours
+        static START: std::sync::OnceLock<std::time::Instant> = std::sync::OnceLock::new();
+        let t0 = *START.get_or_init(std::time::Instant::now);
+        if BLOCKED_SEEN.load(Ordering::Relaxed) > 0 && t0.elapsed() > std::time::Duration::from_secs(45) && args.get("schedule").is_none() {
+            rep.inconclusive(format!("the holder blocks threads for real between scheduling points ({} choices were made past a blocked thread); exploration stopped after {} s", BLOCKED_SEEN.load(Ordering::Relaxed), t0.elapsed().as_secs()));
+            rep.exhaustive = Some(false);
+            std::process::exit(rep.finish(args.get("out")));
         }
         // distinct: (configuration, schedule) and outcome vectors
         rep.distinct(&format!("{}#{}", name, sched_s));
